@@ -243,6 +243,12 @@ func init() {
 			if th {
 				kinds = rng(0, 9)
 			}
+			// first (so that an early stop keeps them): the harness whose native twin can confirm a predicted deadlock
+			for mode := 0; mode < 2; mode++ {
+				for opb := 1; opb <= 2; opb++ {
+					js = append(js, sym.Job{Harness: "VH_C14_hammer", Params: map[string]int{"mode": mode, "opb": opb}})
+				}
+			}
 			for mode := 0; mode < 3; mode++ {
 				for _, kind := range kinds {
 					for fault := 0; fault <= 7; fault++ {
@@ -291,6 +297,6 @@ func init() {
 			"thorough": "all 10 request kinds; panicking hooks combined with every fault",
 		},
 		Outside:   []string{"goroutine interleavings are NOT a variable of this check: it decides the sequential lock discipline (lock held at every transport operation, released on every path, never taken twice) from which mutual exclusion of whole exchanges follows by the semantics of sync.RWMutex; data races on fields, fairness and the go test -race clause are outside"},
-		MinCovers: []string{"do-returned", "two-exchanges", "concurrent-op", "raced", "lock-probe"},
+		MinCovers: []string{"do-returned", "two-exchanges", "concurrent-op", "raced", "lock-probe", "hammered"},
 	})
 }
